@@ -3042,6 +3042,14 @@ evhttp_make_request(struct evhttp_connection *evcon,
     struct evhttp_request *req,
     enum evhttp_cmd_type type, const char *uri)
 {
+	/* The URI is written verbatim into the request line: a line break in
+	 * it would add header fields or a whole second request. */
+	if (strpbrk(uri, "\r\n") != NULL) {
+		event_warnx("%s: illegal characters in request URI", __func__);
+		evhttp_request_free_auto(req);
+		return (-1);
+	}
+
 	/* We are making a request */
 	req->kind = EVHTTP_REQUEST;
 	req->type = type;
